@@ -554,6 +554,7 @@ package ucfg
 
 //@ func convertErr
 //@ props C03 C14
+//@ pure
 //@ ensures [iff] (result == nil) == (err == nil)
 
 //@ func raiseInvalidDuration
@@ -572,3 +573,42 @@ package ucfg
 //@ ensures [int %int] typeof(val) == *cfgInt && err == nil ==> typeof(rvAny(result)) == time.Duration && math(rvAny(result).(time.Duration)) == math(old(val.(*cfgInt).i)) * mathlit(1000000000)
 //@ ensures [uint %int] typeof(val) == *cfgUint && err == nil ==> typeof(rvAny(result)) == time.Duration && math(rvAny(result).(time.Duration)) == math(old(val.(*cfgUint).u)) * mathlit(1000000000)
 //@ ensures [float] typeof(val) == *cfgFloat && err == nil ==> typeof(rvAny(result)) == time.Duration && !isNaN(old(val.(*cfgFloat).f)) && old(val.(*cfgFloat).f) * 1000000000 >= -pow2f(63) && old(val.(*cfgFloat).f) * 1000000000 < pow2f(63) && rvAny(result).(time.Duration) == f2i64(old(val.(*cfgFloat).f) * 1000000000)
+
+// ---------------------------------------------------------------- typed getters (C03: same conversions, failures wrapped)
+
+//@ ghost func gotField(c *Config, name string, idx int) value
+
+//@ func makeOptions
+//@ trusted
+//@ pure
+//@ ensures result != nil && fresh(result)
+
+//@ func (*Config).getField :: c, name, idx, opts -> r, err
+//@ trusted
+//@ requires c != nil && opts != nil
+//@ ensures err == nil ==> r != nil && r == gotField(c, name, idx)
+
+//@ func (*Config).Int :: c, name, idx, opts -> result, err
+//@ props C03
+//@ requires c != nil
+//@ ensures [val] err == nil ==> toIntOk(gotField(c, name, idx)) && result == toIntVal(gotField(c, name, idx))
+
+//@ func (*Config).Uint :: c, name, idx, opts -> result, err
+//@ props C03
+//@ requires c != nil
+//@ ensures [val] err == nil ==> toUintOk(gotField(c, name, idx)) && result == toUintVal(gotField(c, name, idx))
+
+//@ func (*Config).Float :: c, name, idx, opts -> result, err
+//@ props C03
+//@ requires c != nil
+//@ ensures [val] err == nil ==> toFloatOk(gotField(c, name, idx)) && same(result, toFloatVal(gotField(c, name, idx)))
+
+//@ func (*Config).Bool :: c, name, idx, opts -> result, err
+//@ props C03
+//@ requires c != nil
+//@ ensures [val] err == nil ==> toBoolOk(gotField(c, name, idx)) && result == toBoolVal(gotField(c, name, idx))
+
+//@ func (*Config).String :: c, name, idx, opts -> result, err
+//@ props C03
+//@ requires c != nil
+//@ ensures [val] err == nil ==> toStringOk(gotField(c, name, idx)) && result == toStringVal(gotField(c, name, idx))
